@@ -1,11 +1,304 @@
-//! (stub) binding for this area — see DESIGN.md
+//! Independent byte lexer for AGC v3 archives.
+//!
+//! Written from the format rules only — it does NOT call ragc-common or ragc-core. It turns a
+//! `.agc` file into a *structural view*: directory, parts (offset, size, metadata), un-ZSTD'd
+//! payloads, prefix-varint integer streams of the collection, NUL-separated byte strings.
+//! Everything above that level (name delta decoding, descriptor prediction, separator
+//! splitting, pack/id addressing, tuple unpacking, LZ decoding, orientation, overlap join) is
+//! done in TLA+ (spec/ArchiveSemantics.tla). The only trusted library is the `zstd` crate.
 use crate::util::Args;
-use anyhow::Result;
+use anyhow::{anyhow, bail, Context, Result};
+use serde_json::{json, Value};
 
-/// Returns None when `cmd` is not one of this module's sub-commands.
 pub fn dispatch(cmd: &str, a: &Args) -> Option<Result<()>> {
-    let _ = a;
     match cmd {
+        "lex-archive" => Some(cmd_lex(a)),
         _ => None,
     }
+}
+
+#[derive(Debug, Clone)]
+pub struct PartRef {
+    pub off: u64,
+    pub size: u64,
+    pub meta_len: u64,
+    pub meta: u64,
+}
+
+#[derive(Debug, Clone)]
+pub struct StreamView {
+    pub id: usize,
+    pub name: Vec<u8>,
+    pub raw_size: u64,
+    pub parts: Vec<PartRef>,
+}
+
+pub struct ArchiveView {
+    pub file: Vec<u8>,
+    pub footer_len: u64,
+    pub footer_start: u64,
+    pub dir_consumed: u64,
+    pub streams: Vec<StreamView>,
+}
+
+/// length-prefixed big-endian integer: first byte n = number of value bytes (0 for value 0)
+fn be_varint(b: &[u8], pos: &mut usize) -> Result<(u64, u64)> {
+    let n = *b.get(*pos).ok_or_else(|| anyhow!("varint: end of data"))? as usize;
+    *pos += 1;
+    if n > 8 {
+        bail!("varint: length byte {} > 8", n);
+    }
+    if *pos + n > b.len() {
+        bail!("varint: truncated value");
+    }
+    let mut v: u64 = 0;
+    for i in 0..n {
+        v = (v << 8) | b[*pos + i] as u64;
+    }
+    *pos += n;
+    Ok((v, (n + 1) as u64))
+}
+
+pub fn parse_archive(path: &str) -> Result<ArchiveView> {
+    let file = std::fs::read(path).with_context(|| format!("read {}", path))?;
+    let len = file.len() as u64;
+    if len < 8 {
+        bail!("file shorter than the 8-byte footer length");
+    }
+    let mut fl = [0u8; 8];
+    fl.copy_from_slice(&file[file.len() - 8..]);
+    let footer_len = u64::from_le_bytes(fl);
+    if footer_len > len - 8 {
+        bail!("footer length {} exceeds file size {}", footer_len, len);
+    }
+    let footer_start = len - 8 - footer_len;
+    let dir = &file[footer_start as usize..(len - 8) as usize];
+    let mut pos = 0usize;
+    let (n_streams, _) = be_varint(dir, &mut pos)?;
+    let mut streams = Vec::new();
+    for id in 0..n_streams as usize {
+        let end = dir[pos..].iter().position(|&c| c == 0).ok_or_else(|| anyhow!("stream name not terminated"))?;
+        let name = dir[pos..pos + end].to_vec();
+        pos += end + 1;
+        let (n_parts, _) = be_varint(dir, &mut pos)?;
+        let (raw_size, _) = be_varint(dir, &mut pos)?;
+        let mut parts = Vec::new();
+        for _ in 0..n_parts {
+            let (off, _) = be_varint(dir, &mut pos)?;
+            let (size, _) = be_varint(dir, &mut pos)?;
+            // the part itself: varint(meta) ++ data
+            if off >= footer_start {
+                bail!("part offset {} not inside the data area [0,{})", off, footer_start);
+            }
+            let mut p = off as usize;
+            let (meta, meta_len) = be_varint(&file[..footer_start as usize], &mut p)?;
+            if off + meta_len + size > footer_start {
+                bail!("part at {} (+{}+{}) exceeds the data area", off, meta_len, size);
+            }
+            parts.push(PartRef { off, size, meta_len, meta });
+        }
+        streams.push(StreamView { id, name, raw_size, parts });
+    }
+    Ok(ArchiveView { file, footer_len, footer_start, dir_consumed: pos as u64, streams })
+}
+
+impl ArchiveView {
+    pub fn part_data(&self, p: &PartRef) -> &[u8] {
+        let s = (p.off + p.meta_len) as usize;
+        &self.file[s..s + p.size as usize]
+    }
+    pub fn stream(&self, name: &str) -> Option<&StreamView> {
+        self.streams.iter().find(|s| s.name == name.as_bytes())
+    }
+}
+
+fn unzstd(b: &[u8]) -> Result<Vec<u8>> {
+    zstd::stream::decode_all(b).map_err(|e| anyhow!("zstd: {}", e))
+}
+
+/// collection prefix varint: 1..5 bytes, prefixes 0, 10, 110, 1110, 11110000
+fn pv(b: &[u8], pos: &mut usize) -> Result<u64> {
+    let f = *b.get(*pos).ok_or_else(|| anyhow!("prefix varint: end of data"))? as u64;
+    let need = if f & 0x80 == 0 {
+        1
+    } else if f & 0xC0 == 0x80 {
+        2
+    } else if f & 0xE0 == 0xC0 {
+        3
+    } else if f & 0xF0 == 0xE0 {
+        4
+    } else {
+        5
+    };
+    if *pos + need > b.len() {
+        bail!("prefix varint: truncated");
+    }
+    let g = |i: usize| b[*pos + i] as u64;
+    let t1: u64 = 1 << 7;
+    let t2 = t1 + (1 << 14);
+    let t3 = t2 + (1 << 21);
+    let t4 = t3 + (1 << 28);
+    let v = match need {
+        1 => f,
+        2 => (((f & 0x3F) << 8) | g(1)) + t1,
+        3 => (((f & 0x1F) << 16) | (g(1) << 8) | g(2)) + t2,
+        4 => (((f & 0x0F) << 24) | (g(1) << 16) | (g(2) << 8) | g(3)) + t3,
+        _ => ((g(1) << 24) | (g(2) << 16) | (g(3) << 8) | g(4)) + t4,
+    };
+    *pos += need;
+    Ok(v)
+}
+
+fn cstr(b: &[u8], pos: &mut usize) -> Result<Vec<u8>> {
+    let end = b[*pos..].iter().position(|&c| c == 0).ok_or_else(|| anyhow!("byte string not NUL-terminated"))?;
+    let s = b[*pos..*pos + end].to_vec();
+    *pos += end + 1;
+    Ok(s)
+}
+
+fn bytes(v: &[u8]) -> Value {
+    Value::Array(v.iter().map(|&x| json!(x)).collect())
+}
+
+/// A payload part of a segment stream: metadata 0 = stored raw; otherwise last byte = marker,
+/// the rest is one ZSTD frame.
+fn payload(view: &ArchiveView, p: &PartRef) -> Result<Value> {
+    let d = view.part_data(p);
+    if p.meta == 0 {
+        return Ok(json!({"meta": 0, "raw": true, "marker": -1, "bytes": bytes(d)}));
+    }
+    if d.is_empty() {
+        bail!("compressed part with metadata {} has no data", p.meta);
+    }
+    let marker = d[d.len() - 1];
+    let u = unzstd(&d[..d.len() - 1])?;
+    Ok(json!({"meta": p.meta, "raw": false, "marker": marker, "bytes": bytes(&u)}))
+}
+
+/// Lex the whole archive into a list of JSON records (see module comment).
+pub fn lex_records(path: &str) -> Result<Vec<Value>> {
+    let view = parse_archive(path)?;
+    let mut out = Vec::new();
+    let len = view.file.len() as u64;
+    out.push(json!({"ev": "layout", "fileLen": len, "footerLen": view.footer_len, "footerStart": view.footer_start,
+        "dirConsumed": view.dir_consumed, "nStreams": view.streams.len()}));
+    for s in &view.streams {
+        out.push(json!({"ev": "stream", "id": s.id, "name": bytes(&s.name), "nameStr": String::from_utf8_lossy(&s.name),
+            "rawSize": s.raw_size,
+            "parts": s.parts.iter().map(|p| json!({"off": p.off, "size": p.size, "metaLen": p.meta_len, "meta": p.meta})).collect::<Vec<_>>()}));
+    }
+    // params
+    if let Some(s) = view.stream("params") {
+        for p in &s.parts {
+            out.push(json!({"ev": "params", "meta": p.meta, "bytes": bytes(view.part_data(p))}));
+        }
+    }
+    if let Some(s) = view.stream("file_type_info") {
+        for p in &s.parts {
+            let d = view.part_data(p);
+            let mut pos = 0;
+            let mut items = vec![];
+            while pos < d.len() {
+                items.push(String::from_utf8_lossy(&cstr(d, &mut pos)?).to_string());
+            }
+            out.push(json!({"ev": "file_type_info", "meta": p.meta, "items": items}));
+        }
+    }
+    for nm in ["splitters", "segment-splitters"] {
+        if let Some(s) = view.stream(nm) {
+            for p in &s.parts {
+                out.push(json!({"ev": "aux", "stream": nm, "meta": p.meta, "size": p.size}));
+            }
+        }
+    }
+    // collection-samples: ZSTD(varint n, n NUL-terminated names), metadata = raw size
+    if let Some(s) = view.stream("collection-samples") {
+        for p in &s.parts {
+            let u = unzstd(view.part_data(p))?;
+            let mut pos = 0;
+            let n = pv(&u, &mut pos)?;
+            let mut names = vec![];
+            for _ in 0..n {
+                names.push(bytes(&cstr(&u, &mut pos)?));
+            }
+            out.push(json!({"ev": "samples", "meta": p.meta, "rawLen": u.len(), "consumed": pos, "names": names}));
+        }
+    }
+    // collection-contigs: per batch ZSTD(varint nSamples, per sample varint nContigs + encoded names)
+    if let Some(s) = view.stream("collection-contigs") {
+        for (b, p) in s.parts.iter().enumerate() {
+            let u = unzstd(view.part_data(p))?;
+            let mut pos = 0;
+            let ns = pv(&u, &mut pos)?;
+            let mut samples = vec![];
+            for _ in 0..ns {
+                let nc = pv(&u, &mut pos)?;
+                let mut names = vec![];
+                for _ in 0..nc {
+                    names.push(bytes(&cstr(&u, &mut pos)?));
+                }
+                samples.push(Value::Array(names));
+            }
+            out.push(json!({"ev": "contigs_batch", "b": b, "meta": p.meta, "rawLen": u.len(), "consumed": pos, "samples": samples}));
+        }
+    }
+    // collection-details: per batch 5 x (raw size, compressed size) then 5 ZSTD frames of prefix varints
+    if let Some(s) = view.stream("collection-details") {
+        for (b, p) in s.parts.iter().enumerate() {
+            let d = view.part_data(p);
+            let mut pos = 0;
+            let mut sizes = vec![];
+            for _ in 0..5 {
+                let r = pv(d, &mut pos)?;
+                let c = pv(d, &mut pos)?;
+                sizes.push((r, c));
+            }
+            let mut streams = vec![];
+            let mut lens_ok = true;
+            for i in 0..5 {
+                let c = sizes[i].1 as usize;
+                if pos + c > d.len() {
+                    bail!("details batch {}: sub-stream {} exceeds the part", b, i);
+                }
+                let u = unzstd(&d[pos..pos + c])?;
+                pos += c;
+                if u.len() as u64 != sizes[i].0 {
+                    lens_ok = false;
+                }
+                let mut q = 0;
+                let mut ints = vec![];
+                while q < u.len() {
+                    ints.push(pv(&u, &mut q)?);
+                }
+                streams.push(ints);
+            }
+            out.push(json!({"ev": "details_batch", "b": b, "meta": p.meta, "lensOk": lens_ok, "allConsumed": pos == d.len(),
+                "sizes": sizes.iter().map(|x| json!([x.0, x.1])).collect::<Vec<_>>(), "streams": streams}));
+        }
+    }
+    // segment streams: every other stream
+    let known = ["params", "file_type_info", "splitters", "segment-splitters", "collection-samples", "collection-contigs", "collection-details"];
+    for s in &view.streams {
+        let nm = String::from_utf8_lossy(&s.name).to_string();
+        if known.contains(&nm.as_str()) {
+            continue;
+        }
+        let mut parts = vec![];
+        for p in &s.parts {
+            parts.push(payload(&view, p).with_context(|| format!("stream {}", nm))?);
+        }
+        out.push(json!({"ev": "segstream", "name": bytes(&s.name), "nameStr": nm, "parts": parts}));
+    }
+    Ok(out)
+}
+
+fn cmd_lex(a: &Args) -> Result<()> {
+    use std::io::Write;
+    let recs = lex_records(a.get("agc")?)?;
+    let mut out = std::io::BufWriter::new(std::fs::File::create(a.get("out")?)?);
+    for r in recs {
+        writeln!(out, "{}", r)?;
+    }
+    out.flush()?;
+    Ok(())
 }
